@@ -12,7 +12,7 @@
  "replay": false,
  "assumes": ["IL builder: funcinst appends exactly the instruction it is given and returns its fresh result temporary; QBE executes it with the meaning of spec/qbe_sem.h (stubs/il_rec.c)",
              "representation invariant of cproc's lowering: a value of a type of size n < 8 lives in a temporary whose low n bytes are its value and whose other bits are arbitrary (every consumer re-extends: this unit, QBE.funcjnz, QBE.bitfield.*); an object of type _Bool holds 0 or 1",
-             "pointers convert like unsigned long (LP64, flat address space); int -> pointer sign-extends like every conversion from int (6.3.2.3p5: implementation-defined)",
+             "pointers and nullptr_t (C23 6.3.2.4; the null pointer, carrier 0) convert like unsigned long (LP64, flat address space); int -> pointer sign-extends like every conversion from int (6.3.2.3p5: implementation-defined)",
              "typeulong is the 8-byte unsigned basic type type.c defines (stated in PRE: DFCC havocs globals)"]
 }
 */
@@ -22,30 +22,20 @@
 #include "qbe_sem.h"
 #include "il_rec.c"
 
-extern int g_no_error;
+#include "lower_common.h"
 
 /* ghosts */
 u64 g_x;                    /* carrier of the source temporary: low g_ssz bytes significant, the rest arbitrary */
-unsigned g_ssz, g_dsz;      /* C sizes of source / destination type (pointer: 8)                             */
-bool g_ssg, g_dsg;          /* C signedness (pointer: unsigned, _Bool: unsigned)                               */
+unsigned g_ssz, g_dsz;      /* C sizes of source / destination type (pointer, nullptr_t: 8)                  */
+bool g_ssg, g_dsg;          /* C signedness (pointer, nullptr_t, _Bool: unsigned)                              */
 bool g_dbool, g_dvoid;
 
-#define INTPROP (PROPSCALAR|PROPARITH|PROPREAL|PROPINT)
-/* is_valid(type) for integer / pointer types, as type.c / decl.c (enum) / mkpointertype build them */
-#define ISINTT(t) ((((t)->prop & ~PROPCHAR) == INTPROP) && \
-	(((t)->kind == TYPEBOOL && (t)->size == 1 && !(t)->u.basic.issigned) || \
-	 ((t)->kind == TYPECHAR && (t)->size == 1) || ((t)->kind == TYPESHORT && (t)->size == 2) || \
-	 (((t)->kind == TYPEINT || (t)->kind == TYPEENUM) && (t)->size == 4) || \
-	 (((t)->kind == TYPELONG || (t)->kind == TYPELLONG) && (t)->size == 8)))
-#define ISPTRT(t) ((t)->kind == TYPEPOINTER && (t)->size == 8 && (t)->prop == PROPSCALAR)
-#define ISVOIDT(t) ((t)->kind == TYPEVOID && (t)->prop == PROPNONE)
-#define CSIZE(t)  ((unsigned)(t)->size)
-#define CSIGN(t)  ((t)->kind != TYPEPOINTER && (t)->u.basic.issigned)
+#define PTRLIKE(t) (ISPTRT(t) || ISNULLPTRT(t))
 
 #define PRE(X) \
 	X(src != 0 && dst != 0 && src != &typeulong && dst != &typeulong) \
-	X(ISINTT(src) || ISPTRT(src)) \
-	X(ISINTT(dst) || ISPTRT(dst) || ISVOIDT(dst)) \
+	X(ISINTT(src) || PTRLIKE(src)) \
+	X(ISINTT(dst) || PTRLIKE(dst) || ISVOIDT(dst)) \
 	X(typeulong.kind == TYPELONG && typeulong.size == 8 && typeulong.prop == INTPROP && !typeulong.u.basic.issigned) \
 	X(g_ssz == CSIZE(src) && g_ssg == CSIGN(src)) \
 	X(g_dvoid == (dst->kind == TYPEVOID) && g_dbool == (dst->kind == TYPEBOOL)) \
@@ -78,22 +68,6 @@ REQUIRES(PRE)
 __CPROVER_assigns(rec)
 ENSURES(POST);
 
-static void
-mktype_in(struct type *t, int kind, unsigned size, bool sg)
-{
-	t->kind = kind;
-	t->size = size;
-	t->align = size;
-	if (kind == TYPEPOINTER) {
-		t->prop = PROPSCALAR;
-	} else if (kind == TYPEVOID) {
-		t->prop = PROPNONE;
-	} else {
-		t->prop = INTPROP | (kind == TYPECHAR ? PROPCHAR : 0);
-		t->u.basic.issigned = sg;
-	}
-}
-
 void
 harness(void)
 {
@@ -108,16 +82,16 @@ harness(void)
 	IN(int, in_dkind); IN(unsigned, in_dsz); IN(bool, in_dsg);
 	IN(u64, in_x);
 
-	mktype_in(src, in_skind, in_ssz, in_ssg);
-	mktype_in(dst, in_dkind, in_dsz, in_dsg);
+	lc_mktype(src, in_skind, in_ssz, in_ssg);
+	lc_mktype(dst, in_dkind, in_dsz, in_dsg);
 	typeulong.kind = TYPELONG; typeulong.size = 8; typeulong.align = 8; typeulong.prop = INTPROP;
 	typeulong.u.basic.issigned = 0;
 	rec_mktemp(l, 1, in_x);
 	rec_reset(0, 0);
 	g_no_error = 1;            /* every integer/pointer conversion is valid C: no diagnostic may be reached */
 	g_x = in_x;
-	g_ssz = in_ssz; g_ssg = in_skind != TYPEPOINTER && in_ssg;
-	g_dsz = in_dsz; g_dsg = in_dkind != TYPEPOINTER && in_dsg;
+	g_ssz = in_ssz; g_ssg = CSIGN(src);
+	g_dsz = in_dsz; g_dsg = CSIGN(dst);
 	g_dvoid = in_dkind == TYPEVOID; g_dbool = in_dkind == TYPEBOOL;
 	CALLR(struct value *, PRE, POST, convert(f, dst, src, l));
 }
